@@ -86,9 +86,10 @@ class StepLoop(asyncio.SelectorEventLoop):
 
 # ----------------------------------------------------------------------------- transport
 class MemTransport(asyncio.Transport):
-    def __init__(self, loop, proto):
+    def __init__(self, loop, proto, can_pause=True):
         super().__init__()
         self.loop, self.proto = loop, proto
+        self.can_pause = can_pause   # False: a transport without flow control (pause_reading raises)
         self.out = bytearray()
         self.closing = False      # close()/abort() called by the server
         self.lost = False         # connection_lost delivered
@@ -125,10 +126,14 @@ class MemTransport(asyncio.Transport):
 
     def pause_reading(self):
         self.pause_calls += 1
+        if not self.can_pause:
+            raise NotImplementedError
         self.paused = True
 
     def resume_reading(self):
         self.resume_calls += 1
+        if not self.can_pause:
+            raise NotImplementedError
         self.paused = False
 
     def is_reading(self):
@@ -266,7 +271,7 @@ class Sim:
         import threading
         self.loop._thread_id = threading.get_ident()   # loop.is_running() → eager task start, as under a real transport
         self.proto = self.runner.server()
-        self.tr = MemTransport(self.loop, self.proto)
+        self.tr = MemTransport(self.loop, self.proto, can_pause=not cfg.get("no_pause"))
         self.proto.connection_made(self.tr)
         self.start_task = self.proto._task_handler
         self._wrap_parser()
@@ -422,7 +427,15 @@ class Sim:
         return (f"r={codes} part={partial} cl={'1' if self.tr.closing or self.tr.lost else '0'} "
                 f"lost={'1' if self.tr.lost else '0'} q={len(p._messages)} pa={'1' if self.tr.paused else '0'} "
                 f"w={'1' if w else '0'} c={len(self.calls)} f={p._parser._msg_in_flight if p._parser is not None else '-'} "
-                f"x={len(self.loop_excs) + len(self.escaped)}")
+                f"x={len(self.loop_excs) + len(self.escaped) + (1 if self.task_exc() is not None else 0)}")
+
+    def task_exc(self):
+        """the exception that ended the connection task start(), if any (reading it also keeps asyncio from
+        reporting it later as 'Task exception was never retrieved' — it is counted here instead)"""
+        t = self.start_task
+        if t is None or not t.done() or t.cancelled():
+            return None
+        return t.exception()
 
     def close(self):
         try:
